@@ -16,6 +16,7 @@ import (
 	"verif/harness/internal/kvh"
 	"verif/harness/internal/pbt"
 	"verif/harness/internal/shape"
+	"verif/harness/internal/via"
 )
 
 func TestMain(m *testing.M) { pbt.Main(m, "C07") }
@@ -74,15 +75,15 @@ func build(c kvh.Case) *tree {
 	switch {
 	case b.RBT != nil:
 		t.shape = func() (shape.Stats, error) { return shape.RBT(b.RBT, false) }
-		t.load = b.RBT.FromJSON
+		t.load = via.AutoLoader(b.RBT)
 	case b.AVL != nil:
 		t.shape = func() (shape.Stats, error) { return shape.AVL(b.AVL, false) }
-		t.load = b.AVL.FromJSON
+		t.load = via.AutoLoader(b.AVL)
 	case b.BT != nil:
 		t.shape = func() (shape.Stats, error) { return shape.BTree(b.BT, c.Order, false) }
-		t.load = b.BT.FromJSON
+		t.load = via.AutoLoader(b.BT)
 	case b.TreeMap != nil:
-		t.load = b.TreeMap.FromJSON
+		t.load = via.AutoLoader(b.TreeMap)
 	}
 	return t
 }
@@ -329,7 +330,7 @@ func gen(kind string, big bool) func(t *rapid.T) kvh.Case {
 		}
 		maxRun := 120
 		if big {
-			maxRun = 1500
+			maxRun = pbt.Size(1500)
 		}
 		nops := rapid.IntRange(1, 8).Draw(t, "nops")
 		v := 1
